@@ -1,5 +1,6 @@
 import OhkamiModel.P.FangsProofs
 import OhkamiModel.P.FangsBuild
+import OhkamiModel.P.FangsScopeSearch
 /-! # C04 — property theorems about the fang model -/
 namespace C04
 open Ohkami Ohkami.Fangs
@@ -21,5 +22,46 @@ theorem early_answer_cuts (passes : Nat → Bool) (outer inner : List Nat) (f : 
 theorem mounts_flatten (cfg : App) (t : BN) (h : build cfg = some t) :
     (routesOfBN t).Perm (flatRoutes cfg) ∧ TreeOK t :=
   routes_build cfg t h
+
+/-- **The registration trie carries exactly the scope chain**: for every application tree under the property's side condition
+(`sideCond`: each mount prefix is used by one application and nobody else registers under it) whose applications have distinct
+ids, walking the trie that `into_router` builds along any path ends at a node whose fang list is — innermost first — the list of
+the applications (with fangs) whose composed mount prefix contains the path -/
+theorem scope_trie (cfg : App) (t : BN) (hsc : sideCond cfg = true) (hids : (idsOf cfg).Nodup) (hb : build cfg = some t)
+    (ss : List Bytes) : scopeBN t ss = (scopeChain cfg ss).reverse :=
+  (scope_build cfg t hsc hids hb).2.2.2.2 ss
+
+/-- **Scope** (the second half of the property, at full strength): for every such tree and every path, the node of the finalized
+router (children inherit the fangs of their parents, single-child static chains are compressed within a scope only, statics are
+searched before the param) whose `proc` (hit) or `catch` (404) answers the request carries the fangs of exactly the applications
+whose mount prefix contains the path, outermost first — for a hit and for a miss alike, in the tree of every method -/
+theorem scope (cfg : App) (t : BN) (ss : List Bytes) (fuel : Nat) (hsc : sideCond cfg = true)
+    (hids : (idsOf cfg).Nodup) (hb : build cfg = some t) (hf : ss.length + 2 ≤ fuel) :
+    (search fuel (finalize true fuel t false) ss).1.reverse = scopeChain cfg ss :=
+  scope_statement cfg t ss fuel hsc hids hb hf
+
+/-- the statement as it was written down before the proof existed (`Fangs.lean`) -/
+theorem scope_as_stated : ScopeStatement :=
+  fun cfg t ss fuel hsc hids hb hf => scope_statement cfg t ss fuel hsc hids hb hf
+
+/-- **The trace of a request**: entering the fangs of the enclosing applications outermost first, then the handler (or the 404),
+then leaving them in reverse — and an early answer cuts it as `early_answer_cuts` says -/
+theorem scope_trace (passes : Nat → Bool) (cfg : App) (t : BN) (ss : List Bytes) (fuel : Nat) (hsc : sideCond cfg = true)
+    (hids : (idsOf cfg).Nodup) (hb : build cfg = some t) (hf : ss.length + 2 ≤ fuel) :
+    traceOf passes (search fuel (finalize true fuel t false) ss) =
+      onion passes (scopeChain cfg ss) (search fuel (finalize true fuel t false) ss).2 := by
+  simp only [traceOf, scope_statement cfg t ss fuel hsc hids hb hf]
+
+/-- the hypotheses are satisfiable by a non-trivial tree: an application with a fang and a route, mounting under `/api/:v` an
+application with a fang that mounts a third one under `/admin`; the path `/api/7/admin/x` (a 404 inside the innermost mount) lies
+in all three scopes, `/api` in the outermost only -/
+def exampleApp : App :=
+  .mk 0 true [([.static [104]], 1)]
+    [([.static [97, 112, 105], .param],
+      .mk 1 true [([.static [117]], 2)] [([.static [97, 100]], .mk 2 true [([], 3)] [])])]
+
+example : sideCond exampleApp = true ∧ (idsOf exampleApp).Nodup ∧ (build exampleApp).isSome ∧
+    scopeChain exampleApp [[97, 112, 105], [55], [97, 100], [120]] = [0, 1, 2] ∧
+    scopeChain exampleApp [[97, 112, 105]] = [0] := by decide
 
 end C04
